@@ -152,6 +152,23 @@ def has_ref(e):
     return e[0] in ("pref", "bref") or (e[0] == "slice" and has_ref(e[1])) or (e[0] == "cat" and any(has_ref(p) for p in e[1]))
 
 
+def export_bit_on_primitive(widths, expr):
+    """A one-bit selection connected to a terminal of an ideal resistor (a primitive sink instead of an external module)."""
+    h = H()["h"]
+    c = Ctx(widths)
+    gnd = c.m.add(h.Signal(name="zz_gnd"))
+    c.m.add(h.R(r=1)(p=c.build(expr), n=gnd), name="dut")
+    pkg = h.to_proto(c.m)
+    mod = pkg.modules[-1]
+    sigw = {s.name: s.width for s in mod.signals}
+    for inst in mod.instances:
+        if inst.name == "dut":
+            for cn in inst.connections:
+                if cn.portname == "p":
+                    return list(reversed(pkgread.expand_target(cn.target, sigw)))
+    raise RuntimeError("dut.p not exported")
+
+
 def export_bits(widths, expr, port_width, probes=()):
     """Connect expr to a port of port_width, export, and read the bits back (LSB first).
     probes: expressions that are built and asked for their width first, in the same module, any error being caught - a designer
@@ -226,6 +243,22 @@ def check_case(case):
                 reported = None
         except Exception as e:
             rejected_at = "width:%s" % type(e).__name__
+            # a refusal is final: the same object, asked again or used in a design, is refused again
+            try:
+                again = obj.width if "obj" in dir() else None
+                if isinstance(again, int):
+                    out.append(("refused_index_accepted_on_second_ask:%s" % kind, "%s: the first width query raised %s, the second returned %r" % (label, type(e).__name__, again)))
+            except Exception:
+                pass
+            if "obj" in dir():
+                try:
+                    h = H()["h"]
+                    X = h.ExternalModule(name="T1", port_list=[h.Input(name="a", width=1)], domain="verif")
+                    c.m.add(X()(a=obj), name="dut")
+                    pkg = h.to_proto(c.m)
+                    out.append(("refused_index_exported_later:%s" % kind, "%s: its width query raised %s, yet a design using that very object was exported" % (label, type(e).__name__)))
+                except Exception:
+                    pass
     if rejected_at is None and reported is not None and expected is not None and reported != len(expected):
         out.append(("wrong_width:%s" % kind, "%s reports width %d, Python selects %d bits" % (label, reported, len(expected))))
     if rejected_at is None and reported is not None and expected is None and kind != "int_bad" and False:
@@ -269,6 +302,17 @@ def check_case(case):
             except Exception as e:
                 out.append(("probing_breaks_elaboration:%s:%s" % (parent[0], type(e).__name__), "%s exports alone, but after out-of-range / empty trial indices on the same parent "
                             "(errors caught) elaboration raised %s: %s" % (label, type(e).__name__, str(e)[-200:])))
+        if expected is not None and got == expected and pw == 1 and len(expected) == 1:
+            # the same one-bit selection on a primitive's terminal
+            try:
+                gotr = export_bit_on_primitive(widths, expr)
+                if gotr != expected:
+                    out.append(("wrong_bits_on_primitive:%s" % parent[0], "%s on a resistor terminal exported %s, Python selects %s" % (label, gotr, expected)))
+            except pkgread.PkgError as e:
+                out.append(("bit_outside_signal:primitive", "%s on a resistor terminal exported a bit outside its signal: %s" % (label, e)))
+            except Exception as e:
+                out.append(("rejected_on_primitive_sink:%s:%s" % (parent[0], type(e).__name__), "%s is exported on an external module's port, but on a resistor terminal it raised %s: %s" % (
+                    label, type(e).__name__, str(e)[-200:])))
         if expected is None or got != expected:
             pass
         elif pw == len(expected) and pw >= 2:
